@@ -254,6 +254,9 @@ pub struct Violation {
     /// for diverge: the step whose output this one disagrees with
     #[serde(default)]
     pub earlier_step: Option<usize>,
+    /// for divergence across processes: the session the earlier step belongs to
+    #[serde(default)]
+    pub earlier_session: Option<u64>,
     #[serde(default)]
     pub text_a: String,
     #[serde(default)]
@@ -552,6 +555,7 @@ fn controller(plan: &Plan, opts: &ExecOptions, main: Worker) -> (ExecLog, bool) 
                 thread: step.thread.clone(),
                 policy: step.policy.clone(),
                 earlier_step: None,
+                earlier_session: None,
                 text_a: obs.text.clone(),
                 text_b: String::new(),
             });
@@ -596,6 +600,7 @@ fn controller(plan: &Plan, opts: &ExecOptions, main: Worker) -> (ExecLog, bool) 
                         thread: step.thread.clone(),
                         policy: step.policy.clone(),
                         earlier_step: Some(rec.first_step),
+                        earlier_session: None,
                         text_a: text0.clone(),
                         text_b: if obs.text.is_empty() {
                             obs.detail.clone()
